@@ -120,6 +120,11 @@ def explore(run, cellname, gdim, quick):
                 c.append(("pow", ("pow", r, ("num", p)), ("num", q)))
         c.append(("div", ("num", 1), r))
         c.append(("div", ("num", 1), ("pow", r, ("num", 2))))
+        for q in EXPONENTS:
+            # powers of reciprocals: (1/x)**q, (1/x**2)**q, (1/x**3)**q
+            c.append(("pow", ("div", ("num", 1), r), ("num", q)))
+            c.append(("pow", ("div", ("num", 1), ("pow", r, ("num", 2))), ("num", q)))
+            c.append(("pow", ("div", ("num", 1), ("pow", r, ("num", 3))), ("num", q)))
         c.append(("abs", r))
     for a, b in itertools.product(l1, repeat=2):
         c.append(("mul", a.recipe, b.recipe))
